@@ -91,6 +91,14 @@ Theorem C16_bipartite_roundtrip_any_stoich : ∀ (fl : bflags) (ifl : iflags) (H
 Proof. exact bipartite_roundtrip_gen. Qed.
 Print Assumptions C16_bipartite_roundtrip_any_stoich.
 
+(** outside [bip_names_ok] the clause fails (known finding C16:bipartite-name-clash): un-prefixed string ids, species label "r_1"
+    = generated reaction id r_1 — one node for both, the import returns a different network *)
+Theorem C16_bipartite_unprefixed_refuted :
+  bool_decide (wf16 ex_bip_clash) = true ∧ bool_decide (bip_names_ok ex_fl_bare ex_bip_clash) = false ∧
+  bool_decide (edges ex_bip_clash_back = edges ex_bip_clash) = false.
+Proof. exact ex_bip_names_needed. Qed.
+Print Assumptions C16_bipartite_unprefixed_refuted.
+
 (** instance: every network reachable by any history of store operations (C15), default prefixes *)
 Theorem C16_bipartite_roundtrip_reachable : ∀ (n : nat) (ops : list op) (k : nat) (fl : bflags) (ifl : iflags),
   f_eid fl = true → f_stoich fl = true → f_sp fl = Some "S:" → f_rp fl = Some "R:" →
